@@ -90,6 +90,25 @@ def fork_int(x, lo, hi):
     return hi
 
 
+def fork_range(x, lo, hi):
+    """Like fork_int but with O(log n) solver-decided comparisons (for wide ranges such as a loop-step index).
+
+    Total: x <= lo maps to lo, x >= hi maps to hi.
+    """
+    if x <= lo:
+        return lo
+    if x >= hi:
+        return hi
+    a, b = lo + 1, hi - 1
+    while a < b:
+        mid = (a + b) // 2
+        if x <= mid:
+            b = mid
+        else:
+            a = mid + 1
+    return a
+
+
 def fork_bool(b):
     return True if b else False
 
